@@ -56,7 +56,7 @@ var authSignerSets = []string{"S", "M1", "AL", "CM", "K", "K+AL", "K+CM", "M-min
 func NewAuthGrid(n int) *AuthGrid { return &AuthGrid{N: n} }
 func (d *AuthGrid) Name() string  { return fmt.Sprintf("witnesses-n%d", d.N) }
 func (d *AuthGrid) Rule() string {
-	return "every method of the eleven manifests compiled from the tree (table rows; manifest methods without a row are listed as uncovered) x signer sets {stranger, one Alphabet member, Alphabet 2/3+1, committee majority, named key, named key+Alphabet, named key+majority, floor(2n/3) single members, the Inner Ring member outside the committee}; non-trivial = a non-safe method under a signer set; distinct by (method, signer set)"
+	return "every method of the eleven manifests compiled from the tree (table rows; manifest methods without a row are listed as uncovered) x signer sets {stranger, one Alphabet member, Alphabet 2/3+1, committee majority, named key(s), named keys+Alphabet, named keys+majority, each of two named keys alone, floor(2n/3) single members, the Inner Ring member outside the committee}; non-trivial = a non-safe method under a signer set; distinct by (method, signer set)"
 }
 
 func (d *AuthGrid) Build() *World {
@@ -179,6 +179,9 @@ func (d *AuthGrid) Cases(string) []GridCase {
 		if r.Kind == "safe" {
 			sets = []string{"ALL"}
 		}
+		if r.Kind != "safe" && namesTwoKeys(r) {
+			sets = append(append([]string{}, sets...), "K1", "K2") // each of the two named keys alone
+		}
 		for _, s := range sets {
 			out = append(out, GridCase{Name: fmt.Sprintf("%s.%s#%d by %s", r.Contract, r.Method, i, s), Data: authCase{i, s}})
 		}
@@ -194,13 +197,22 @@ func (d *AuthGrid) witnesses(w *World, set string, keys []util.Uint160) []util.U
 		case "S":
 			out = append(out, d.s.Hash)
 		case "M1":
-			out = append(out, w.Members[0].Hash)
+			// one Alphabet member: the last one, which is never the key a row names (rows name member 0)
+			out = append(out, w.Members[len(w.Members)-1].Hash)
 		case "AL":
 			out = append(out, w.Alpha)
 		case "CM":
 			out = append(out, w.Comm)
 		case "K":
 			out = append(out, keys...)
+		case "K1":
+			if len(keys) > 0 {
+				out = append(out, keys[0])
+			}
+		case "K2":
+			if len(keys) > 1 {
+				out = append(out, keys[1])
+			}
 		case "AUD":
 			out = append(out, d.aud.Hash)
 		case "M-minority":
@@ -325,8 +337,8 @@ func (d *AuthGrid) Eval(x *Exec, root *Node, gc GridCase) GridResult {
 			so, _ := x.Do(root, Call{Script: Script(h, r.Method, r.Args(d, w)...), Signers: []util.Uint160{d.s.Hash}, Adv: adv, Label: gc.Name + " (stranger, for comparison)"})
 			past = !so.Halt && faultText(so.Fault) != faultText(o.Fault)
 		}
-		if !inert {
-			vs = append(vs, Viol("effect-without-witness", fmt.Sprintf("%s.update under %s changed state: %v", r.Contract, c.Signer, diff), where))
+		if !inert || o.Halt && !sufficient {
+			vs = append(vs, Viol("effect-without-witness", fmt.Sprintf("%s.update under %s halted=%v, changed state: %v", r.Contract, c.Signer, o.Halt, diff), where))
 		} else if past != sufficient {
 			if past {
 				vs = append(vs, Viol("effect-without-witness", fmt.Sprintf("%s.update under %s got past the authorisation check (stopped only by the version gate)", r.Contract, c.Signer), where))
@@ -580,6 +592,22 @@ func (d *AuthArgGrid) Cases(string) []GridCase {
 		}
 	}
 	return out
+}
+
+// namesTwoKeys: some alternative of the row's requirement names two or more single keys.
+func namesTwoKeys(r authRow) bool {
+	for _, alt := range r.Req {
+		k := 0
+		for _, s := range alt {
+			if s != "AL" && s != "CM" && s != "any" {
+				k++
+			}
+		}
+		if k >= 2 {
+			return true
+		}
+	}
+	return false
 }
 
 func needsNoWitness(r authRow) bool {
